@@ -7,6 +7,11 @@ NOTE_COMMON = ("Trusted: Lean 4.33 kernel; axioms propext/Classical.choice/Quot.
                "the theorem is about the model, the correspondence and the end-to-end oracle carry it to the code. ")
 
 CHECKS = {
+ "C15": dict(
+   technique="Lean 4 proofs parametric in the hash (loop-to-spec induction with fuel, take/drop slice algebra, HkdfLabel by computation, key-update by induction) + the model executed with Lean's own MD5/SHA-1/SHA-256/SHA-384/HMAC/HKDF (validated against hashlib on every run) against key material read from real Decryptor / QuicSession objects + an independent hashlib implementation of the RFC key schedules as oracle",
+   text="For every hash suite (hashes are structure parameters, not axioms), all secrets, randoms and lengths: ssl30_/tls10_/tls12_keys_eq_rfc (dev_*_keys = the RFC partition of the RFC key block; TLS 1.0 PRF for even-length secrets, with a proved counterexample for odd ones), master_secret_*_eq_rfc, hkdf_label_bytes (make_info = HkdfLabel encoding iff the lengths fit), tls13_keys_eq_rfc / tls13_installed_eq_rfc, quic_initial_eq_rfc, quic_keys_eq_rfc, quic_installed_eq_rfc, quic_key_update_eq_rfc (n generations by induction), quic_epoch_generations (check_key_epoch invariant), iv_table_eq_rfc, installed_eq_schedule and installed_eq_schedule_premaster (what generate_keys hands to the Decryptor for (version, resolved suite) is the RFC's client/server MAC key, key and - where the RFC takes one from the key block - IV, in the RFC's order). The model is run against a real Session fed synthetic hellos (every table suite x valid version in the thorough tier), against every key_derivator / quic_key_generation function with arbitrary arguments, and against a real QuicSession (set_initial_decryptor, set_tls_decryptors, check_key_epoch up to 4 generations).",
+   note=NOTE_COMMON + "Modelled: prf_ssl_30, prf_tls_10_11, prf_tls_12, gen_master_secret_*, dev_ssl_30/tls_10_11/tls_12/tls_13_keys, generate_keys wiring incl. the RSA pre-master branch, Decryptor.parse_keys/update_keys, make_info, dev_initial_keys, dev_quic_keys, key_update, set_initial_decryptor, set_tls_decryptors, check_key_epoch. Inputs of the model: the resolved suite parameters (C14). Not modelled: bytes.fromhex of key-log values, key-size checks of the cryptography constructors, header-protection mask computation, HKDFExpand's 255*HashLen limit. Trusted additionally: harness/spec_keys.py (own RFC implementation and suite-name grammar) and the Lean transcription lean/TLX/Spec/KeySchedules.lean.",
+   design="§8.15"),
  "C16": dict(
    technique="Lean 4 proof (omega/case analysis, generic in the window) + differential correspondence of the model with QuicSession.get_full_packet_number + RFC A.3 oracle",
    text="Theorems pn_decode_eq_rfc (impl = RFC 9000 A.3 for all largest, n in 1..4, all truncated values), pn_decode_window, pn_space_isolation, pn_entry_is_max are kernel-checked with no bound. The model (TLX/Quic/PktNum.lean) is executed against the real method on ~37k single-step cases around every window boundary plus packet histories; the real method is also compared with a literal transcription of RFC 9000 A.3.",
